@@ -205,6 +205,19 @@ func crashChild(args []string) error {
 		}
 		b, _ := json.Marshal(cp)
 		say("ACK %d %s %s", k, v, b)
+		if h.BusyCommit == k+1 && uerr != nil {
+			// the caller does what callers do after a storage error: it sends the very same request again, at once
+			say("BEGIN %d", k)
+			ret, uerr = wit.Update(ctx, c.LogID, c.OldSize, c.CP, c.Proof)
+			v = verdict(uerr)
+			cp = world.CP{None: true}
+			if uerr == nil {
+				cp = w.Project(w.Logs[s.Log], ret).CP
+				prev = &cp
+			}
+			b, _ = json.Marshal(cp)
+			say("ACK %d %s %s", k, v, b)
+		}
 	}
 	hook.mu.Lock()
 	ops, _ := json.Marshal(hook.ops)
@@ -503,6 +516,7 @@ func crashMain(args []string) error {
 						var k int
 						if _, e := fmt.Sscanf(l, "BEGIN %d", &k); e == nil && strings.HasPrefix(l, "BEGIN") {
 							begun = k
+							acked[k] = false // (a step may be begun twice: the caller repeats a request that failed with a storage error)
 						}
 						if strings.HasPrefix(l, "ACK ") {
 							parts := strings.SplitN(l, " ", 4)
